@@ -40,6 +40,17 @@ claim("C15",
       "Trusted: python ast; call resolution by own symbol tables; domain assumption: Fortran is requested only together with C.",
       "DESIGN.md §4 C15")
 
+claim("C16",
+      "guard/effect classification over ast (option-guarded regions, def-use closure of flag locals, comment-leader "
+      "prefix analysis of appended text, comment-only method summaries)",
+      "Decides from the current source that in every emitter both branches of every test on debug, debug_index, "
+      "doxygen, per-node literalinclude and show_splicer_comments only append text whose constant prefix is a comment "
+      "leader (or blank), call comment-only methods, or set locals/format fields used only in such contexts; that no "
+      "file/helper registration happens under those guards; and that the version string only reaches the comment "
+      "header line. Unresolvable effects are listed in evidence and never alarmed.",
+      "Trusted: python ast; comment leader table per emitter; library-level literalinclude2 excluded as the property states.",
+      "DESIGN.md §4 C16")
+
 PENDING = "check not built yet in this session (fail-closed: not claimed until its rules run clean)"
-for _p in ["C01","C02","C03","C06","C08","C09","C10","C11","C12","C13","C14","C16","C17","C18"]:
+for _p in ["C01","C02","C03","C06","C08","C09","C10","C11","C12","C13","C14","C17","C18"]:
     na(_p, PENDING)
